@@ -22,6 +22,10 @@ REQUIRED_THEOREMS = ["tx_emits_frame", "tx_emits_frame_complete", "rx_of_tx", "d
 RULE = ("tx/loop cases: sequences of header packets (transaction / link management / ITP types, data headers, the "
         "0b11000 type that the 4-bit data test also takes) with payload lengths 0..17, 1020..1024 and random (every "
         "residue mod 4), delayed data headers, PHY ready patterns (always / 50 % / 10 % with long stalls / 90 %); "
+        "in every tier two fixed loop cases carrying back-to-back DATA packets of 1024+1023 bytes (PHY always ready) and "
+        "1021+1024 bytes (90 % ready) - the maximum packet size round trip (thorough/widen: two more, 50 % / 10 % ready) - and "
+        "one with delayed data headers for which data_sink stays silent, each followed by a data packet with payload; in the "
+        "random sequences the producer is silent for half of the delayed headers; "
         "rand cases: all inputs random every cycle")
 ASSUMPTIONS = ["tx_emits_frame: stream contract of data_sink as the decidable predicate `obeys` (Lemmas/C36Frame.lean), required "
                "only for a data header that is not delayed: in every cycle from the one after `generate` up to `done` the "
@@ -46,7 +50,31 @@ def gen_cases(tier, rng):
         out.append({"kind": "loop", "seed": rng.u64(), "k": k, "npk": 5 if tier == "quick" else 8})
         if k % 2 == 0:
             out.append({"kind": "rand", "seed": rng.u64(), "k": k, "len": 300})
+    # full-size round trips in EVERY tier: DATA packets of exactly MAX_PACKET_SIZE = 1024 bytes (and 1023 / 1021 / 1022) through
+    # transmitter -> both receivers; one elaborated design carries the packets of a case; k selects the PHY ready pattern
+    # third fixed case: delayed data headers for which NO payload is presented (a retransmitted header; data_sink silent),
+    # each followed by an ordinary data packet with payload - the abort path must leave nothing behind
+    big = [([1024, 1023], 0), ([1021, 1024], 3), ([3, [0, "delayed"], 5, [9, "delayed"], 6, 0, 4, [2, "delayed"], 0, 17], 1)]
+    if tier != "quick":
+        big += [([1024, 1022, 1024], 1), ([1023, 1024, 0, 1024], 2)]
+    for lens, k in big:
+        out.append({"kind": "loop", "seed": rng.u64(), "k": k, "big": lens})
     return out
+
+
+def make_big_packets(rng, lens):
+    """back-to-back DATA packets (type 0b01000, not delayed) with the given payload lengths"""
+    pkts = []
+    for L in lens:
+        delayed = 0
+        if isinstance(L, list):
+            L, delayed = L[0], 1
+        lcw = U.link_control_word(seq=rng.below(8), reserved=0, hub_depth=0, delayed=delayed, deferred=rng.below(2))
+        dw0, dw1, dw2 = U.data_header(L, addr=rng.below(128), seq=rng.below(32), ep=rng.below(16),
+                                      direction=rng.below(2), route=0)
+        pkts.append({"dw0": dw0, "dw1": dw1, "dw2": dw2, "lcw": lcw, "payload": rng.bytes(L), "delayed": delayed,
+                     "mute": delayed, "idle": rng.choice([0, 1, 3])})
+    return pkts
 
 
 def make_packets(rng, k, npk):
@@ -77,6 +105,9 @@ def make_packets(rng, k, npk):
             payload = rng.bytes(L)
         pkts.append({"dw0": dw0, "dw1": dw1, "dw2": dw2, "lcw": lcw, "payload": payload, "delayed": delayed,
                      "idle": rng.choice([0, 0, 1, 3])})
+        # a delayed header is a retransmission: the link layer has no payload for it, so half of the time data_sink
+        # stays silent (the stream contract asks nothing of the producer for a delayed header)
+        pkts[-1]["mute"] = 1 if (delayed and rng.chance(50)) else 0
     return pkts
 
 
@@ -134,7 +165,7 @@ class Producer:
                 self.cur = self.pkts[self.pi]
                 self.pi += 1
                 self.busy, gen = True, 1
-                self.words = payload_words(self.cur["payload"] or [])
+                self.words = [] if self.cur.get("mute") else payload_words(self.cur["payload"] or [])
                 self.wi = 0
         p = self.cur if self.busy else None
         if p is not None:
@@ -234,8 +265,14 @@ def check_frames(stim, rows, pkts, fails, tags, sig_prefix="tx", complete=True):
         p = pkts[n]
         tags.add("hdr-only" if (p["dw0"] & 0xF) != 8 else "aborted" if p["delayed"] else
                  "len%%4=%d" % (len(p["payload"]) % 4))
+        if p["delayed"] and p.get("mute"):
+            tags.add("aborted-silent-sink")
+            if n + 1 < len(pkts) and pkts[n + 1]["payload"] and not pkts[n + 1]["delayed"]:
+                tags.add("payload-after-silent-abort")
         if p["payload"] is not None and len(p["payload"]) >= 1020:
             tags.add("len>=1020")
+        if p["payload"] is not None and len(p["payload"]) == 1024 and sig_prefix == "loop":
+            tags.add("loop-len=1024")
         if p["payload"] == []:
             tags.add("zlp")
         if fr != want and not fails:
@@ -277,7 +314,8 @@ def run_case(desc):
 
     # tx / loop cases are closed-loop (the producer reacts to data_sink.ready / done), so a replay re-runs the
     # producer from the seed instead of re-applying recorded inputs (those depend on the DUT's own responses)
-    pkts = desc.get("packets") or make_packets(rng, k, desc.get("npk", 8))
+    pkts = desc.get("packets") or (make_big_packets(rng, desc["big"]) if desc.get("big") else
+                                   make_packets(rng, k, desc.get("npk", 8)))
     prod = Producer(rng.fork("prod"), pkts, k % 4)
     if kind == "tx":
         dut = RawPacketTransmitter()
